@@ -148,6 +148,14 @@ class SpecEval:
             return SV(S.mk_slice(S.arr(s.t), S.off(s.t) + lo, hi - lo, S.cap(s.t) - lo), s.ty)
         if k == 'un':
             v = self.ev(a[2])
+            if a[1] == '*':
+                uk, e = w.prog.under(v.ty)
+                if e['kind'] != 'ptr':
+                    raise SpecError('dereference of non-pointer %s' % v.ty)
+                el = e['elem']
+                if w.prog.kind(el) == 'struct':
+                    raise SpecError('dereference of a struct pointer: use field access')
+                return SV(self.heap.get(('cell', el))[v.t], el)
             if a[1] == '!':
                 return SV(z3.Not(v.t), 'bool')
             return SV(-v.t, v.ty)
